@@ -1,2 +1,4 @@
 import Proofs.Browser
 import Proofs.Diag
+import Proofs.XReal
+import Proofs.Bonferroni
